@@ -111,7 +111,9 @@ fn source_writer_cursor_two_writes() {
         // SourceWriter::indent builds `" ".repeat(2)`; here the two-space string is installed
         // directly so that str::repeat need not be executed (its result feeds push_str later)
         w.indent = 2;
-        w.indent_str = String::from("  ");
+        // replace without dropping the old (empty) String: its drop trips over a Kani artefact
+        // (String::new() constants can come out with a non-zero capacity; DESIGN section 5)
+        core::mem::forget(core::mem::replace(&mut w.indent_str, String::from("  ")));
         r.indent = 2;
     }
     w.write(unsafe { core::str::from_utf8_unchecked(&t1.bytes[..t1.blen]) });
